@@ -200,7 +200,14 @@ def load_known():
 
 
 def known_keys(prop):
-    return {e["key"]: e for e in load_known().get("findings", []) if e["property"] == prop}
+    out = {e["key"]: e for e in load_known().get("findings", []) if e["property"] == prop}
+    extra = os.environ.get("VT_EXTRA_KNOWN")       # development only: look behind a defect not yet handled
+    if extra and os.path.exists(extra):
+        with open(extra) as f:
+            for e in json.load(f):
+                if e["property"] == prop:
+                    out[e["key"]] = e
+    return out
 
 
 # ----------------------------------------------------------------------------------------------
